@@ -28,6 +28,7 @@
  ],
  'kf': ['C11_strto_0x_nohex'], 'kf_probe_case': {'C11_strto_0x_nohex': {'BASE': 16}},
  'witness': {'unwind': 9},
+ 'fallback': 'ghost-free',   # c11_strto_harness.h runs the reference machine as a plain loop there
  'assumptions': ['strto*: every character the ISO 7.22.1.4 automaton has to inspect lies inside the text object (SPEC_NEED in spec/c11_strto_ref.h; satisfied by every NUL-terminated string and by the object that ends exactly at the first unconsumable character)'],
 } @*/
 #include "vc.h"
